@@ -169,10 +169,10 @@ PROPS["C20"] = {
 }
 PROPS["C04"] = {
     "engine": "mir-bmc", "technique": _M_TECH,
-    "bounds": "engine M: uni movable full-sync and atomic channels, MAX_STREAMS 1, one stream whose task is driven by an executor model (poll_next; park when Pending; re-poll when its waker was invoked); 1 producer x 1-2 sends (quick), 2 producers / 3 sends with BUFFER_SIZE 4 (thorough); stream either never polled before or parked with its waker registered; violation = quiescent state with producers returned, task parked and un-woken, event pending; functions: <channel>::send, StreamsManagerBase::{wake_stream, register_stream_waker, keep_stream_running}, MutinyStream::poll_next, <channel>::consume, ring publish/consume",
-    "outside": "send_with / send_with_async / try_send_reserved wake rules and the Multi channels' send_derived (not encoded in this round); MAX_STREAMS 2; Tokio's own wake-to-poll latency (the model re-polls whenever woken); zero-copy and crossbeam channels",
+    "bounds": "engine M: uni movable full-sync and atomic channels, MAX_STREAMS 1 (and 2 with one stream created, atomic channel), entry points send and reserve_slot + try_send_reserved, one stream whose task is driven by an executor model (poll_next; park when Pending; re-poll when its waker was invoked); 1 producer x 1-2 sends (quick), 2 producers / 3 sends with BUFFER_SIZE 4 (thorough); stream either never polled before or parked with its waker registered; violation = quiescent state with producers returned, task parked and un-woken, event pending; functions: <channel>::send, StreamsManagerBase::{wake_stream, register_stream_waker, keep_stream_running}, MutinyStream::poll_next, <channel>::consume, ring publish/consume",
+    "outside": "send_with / send_with_async wake rules (same rule as send in the source, not encoded) and the Multi channels' send_derived; two streams created at once; Tokio's own wake-to-poll latency (the model re-polls whenever woken); zero-copy and crossbeam channels",
     "assumptions": [_M_NOTE, "a Waker is an abstract task id; Waker::{clone, will_wake, wake_by_ref} are intrinsics; ogre_sync::lock's retry ladder is encoded as one retrying CAS after its MIR was checked to be exactly that"],
-    "m": [M("c04_full_sync_first_park_vs_send"), M("c04_full_sync_parked_vs_send"), M("c04_atomic_first_park_vs_send"), M("c04_atomic_parked_vs_two_sends", "thorough"),
+    "m": [M("c04_full_sync_first_park_vs_send"), M("c04_full_sync_parked_vs_send"), M("c04_atomic_first_park_vs_send"), M("c04_atomic_parked_vs_reserved_ms2"), M("c04_atomic_parked_vs_send_ms2"), M("c04_atomic_parked_vs_reserved_ms1", "thorough"), M("c04_atomic_parked_vs_two_sends", "thorough"),
           M("c04_full_sync_parked_vs_two_producers", "thorough"), M("c04_atomic_parked_vs_three_sends_n4", "thorough")],
     "k": [],
 }
